@@ -478,7 +478,7 @@ def compare(ctx, c, src, src_digest_before, res, ref, tr=None, tag="", lm_overri
             else:
                 lm_ok += int(keep.sum())
     # ---- source untouched
-    dd = digest.digest_diff(src_digest_before, digest.digest(src))
+    dd = digest.parameter_mutation(src_digest_before, digest.digest(src))
     ctx.expect(dd is None, sig("source_mutated"), lambda: repr(dd))
     nontrivial = (not ref.is_identity() or tuple(rshape) != shape) and n_checked > 0 and (lm_ok > 0 or not src.has_landmarks or not check_landmarks)
     ctx.nontrivial(nontrivial)
@@ -807,7 +807,7 @@ def c_case(c, ctx):
         if not ctx.expect(len(levels) == n, op + ".n_levels", "%d levels for n_levels=%d" % (len(levels), n)):
             return
         # level 0 is (a copy of) the source
-        sd = digest.state_diff(src, levels[0])
+        sd = digest.public_diff(src, levels[0])
         ctx.expect(sd is None, op + ".level0_not_source", lambda: sd)
         ctx.expect(not digest.shared_buffers(src, levels[0]), op + ".level0_aliases_source", "")
         M = np.eye(d)
@@ -823,7 +823,7 @@ def c_case(c, ctx):
                 from menpo.feature import gaussian_filter
 
                 want = gaussian_filter(prev, sigma).rescale(1.0 / ds)
-            sd = digest.state_diff(want, levels[k], rtol=1e-12, atol=1e-12)
+            sd = digest.public_diff(want, levels[k], rtol=1e-12, atol=1e-12)
             ctx.expect(sd is None, op + ".level_is_not_successive_rescale", lambda: "level %d: %s" % (k, sd))
             ref = Ref([round_set(pshape[a] / ds, "ceil") for a in range(d)], M.copy(), np.zeros(d), mode="nearest",
                       order=1 if c["cls"] != "BooleanImage" else 0)
@@ -840,7 +840,7 @@ def c_case(c, ctx):
                            lambda: "level %d group %r\n%s" % (k, nm, describe(got_lm, want_lm)))
             if k == 1 and op == "pyramid":
                 compare(ctx, c, src, before, levels[1], ref, None, tag=".level1")
-        dd = digest.digest_diff(before, digest.digest(src))
+        dd = digest.parameter_mutation(before, digest.digest(src))
         ctx.expect(dd is None, op + ".source_mutated", lambda: repr(dd))
         ctx.nontrivial(True)
     else:
@@ -912,7 +912,7 @@ def _compare_warp_to_mask(ctx, c, src, before, res, ref, tr, tm):
     if tr is not None:
         sub = idx[:: max(1, idx.shape[0] // 40)]
         ctx.expect(close(tr.apply(sub), ref.to_source(sub), atol=1e-6 * max(shape)), op + ".returned_transform.grid", "")
-    dd = digest.digest_diff(before, digest.digest(src))
+    dd = digest.parameter_mutation(before, digest.digest(src))
     ctx.expect(dd is None, op + ".source_mutated", lambda: repr(dd))
     ctx.nontrivial(n_checked > 0 and (lm_ok > 0 or not names))
 
